@@ -13,6 +13,7 @@
 #include <fstream>
 #include <functional>
 #include <set>
+#include <unistd.h>
 
 namespace fs = std::filesystem;
 using tulz::DirectoryVisitor;
@@ -22,7 +23,7 @@ namespace {
 
 struct Cover {
     uint64_t trees = 0, nodes = 0, dirs = 0, files = 0, emptyDirs = 0, queries = 0, missingProbes = 0, relativeQueries = 0, trailingSepQueries = 0;
-    uint64_t deepChains = 0, longestCwd = 0;
+    uint64_t deepChains = 0, longestCwd = 0, bigDirs = 0, visitorReuses = 0;
     uint64_t strings = 0, identities = 0, absoluteJoins = 0, arbitraryStrings = 0, visitors = 0, nestedVisitors = 0, bytesInFiles = 0, oddNames = 0, nontrivialCases = 0;
     std::vector<uint64_t> fps;
     std::vector<std::string> samples;
@@ -178,6 +179,29 @@ void visitorChecks(const Node &root, const std::string &rootPath, rt::Rng &rng) 
                 if (cwd() != mid) return fail("visitor-not-restored", "visitor", "after the nested visitor the working directory is " + esc(cwd()) + ", before it was " + esc(mid));
                 break;
             }
+        if (rng.chance(400)) {
+            // one visitor object used for two visits, with a change of directory by the program in between: the
+            // second visit has to remember where it started, not where the first one did
+            std::string dirA, dirB;
+            for (auto &k : root.kids) if (k.dir) { if (dirA.empty()) dirA = rootPath + "/" + k.name; else if (dirB.empty()) dirB = rootPath + "/" + k.name; }
+            if (!dirA.empty()) {
+                if (dirB.empty()) dirB = rootPath;
+                {
+                    DirectoryVisitor v2;
+                    v2.set(Path(dirA));
+                    v2.visit();
+                    v2.restore();
+                    if (cwd() != rootPath) return fail("visitor-not-restored", "visitor-reuse", "restore() after the first visit did not return");
+                    fs::current_path(dirB);
+                    v2.set(Path(dirA));
+                    v2.visit();
+                    if (cwd() != dirA) return fail("visitor-did-not-enter", "visitor-reuse", "second visit() did not enter");
+                }
+                ++C.visitorReuses;
+                if (cwd() != dirB) return fail("visitor-not-restored", "visitor-reuse", "a reused visitor returned to '" + esc(cwd()) + "' instead of the directory its second visit started from");
+                fs::current_path(rootPath);
+            }
+        }
         if (rng.chance(300)) {
             // explicit restore followed by the destructor
             DirectoryVisitor again;
@@ -241,6 +265,23 @@ void deepCase(uint64_t c, rt::Rng rng, const std::string &base) {
         Path deep(p);
         if (!deep.exists() || !deep.isDirectory() || deep.size() != fileSize) fail("size-wrong", "long-path", "size()/exists() wrong through a " + std::to_string(p.size()) + "-byte path");
         else if (Path(rootPath).size() != fileSize) fail("size-wrong", "long-path", "size() of the chain root does not reach the leaf file");
+    }
+    // now and then the leaf directory also gets sparse files whose sizes add up to more than 2^31 and 2^32 bytes
+    if (!gCaseFailed && rng.chance(250)) {
+        uint64_t total = fileSize;
+        int nBig = (int) rng.range(2, 4);
+        for (int i = 0; i < nBig; ++i) {
+            std::string bf = p + "/sparse" + std::to_string(i);
+            uint64_t sz = 1200000000ULL + rng.below(600000000ULL);
+            { std::ofstream o(bf, std::ios::binary); }
+            if (truncate(bf.c_str(), (off_t) sz) != 0) { total = 0; break; }
+            total += sz;
+        }
+        if (total) {
+            ++C.bigDirs;
+            size_t got = Path(p).size(), gotRoot = Path(rootPath).size();
+            if (got != total || gotRoot != total) fail("size-wrong", "large-directory", "size() = " + std::to_string(got) + " / " + std::to_string(gotRoot) + " for a directory whose (sparse) regular files hold " + std::to_string(total) + " bytes");
+        }
     }
     fs::current_path(before);
     ++C.deepChains;
@@ -370,7 +411,7 @@ int main(int argc, char **argv) {
                    .kv("emptyDirectories", C.emptyDirs).kv("nodeQueries", C.queries).kv("relativeQueries", C.relativeQueries)
                    .kv("trailingSeparatorQueries", C.trailingSepQueries).kv("missingPathProbes", C.missingProbes).kv("oddNames", C.oddNames)
                    .kv("bytesInFiles", C.bytesInFiles).kv("pathStrings", C.strings).kv("identitiesChecked", C.identities).kv("absoluteJoins", C.absoluteJoins)
-                   .kv("arbitraryStrings", C.arbitraryStrings).kv("visitors", C.visitors).kv("nestedVisitors", C.nestedVisitors).kv("deepChains", C.deepChains).kv("maxCwdBytes", C.longestCwd)
+                   .kv("arbitraryStrings", C.arbitraryStrings).kv("visitors", C.visitors).kv("nestedVisitors", C.nestedVisitors).kv("deepChains", C.deepChains).kv("directoriesOver2GiB", C.bigDirs).kv("visitorObjectsReused", C.visitorReuses).kv("maxCwdBytes", C.longestCwd)
                    .kv("nontrivialCases", C.nontrivialCases).raw("samples", rt::jsonArray(C.samples, false)));
     return 0;
 }
